@@ -286,7 +286,8 @@ fn hstep(w: &HWorld, ctx: ExecutionContext<'static>, st: &mut HState, op: &HOp) 
             let v = hist_values(t)[*val].clone();
             st.sets.entry(*list).or_default().entry(name.clone()).or_default().insert(v.clone());
             let l = w.scheme.get_list(&t.to_engine()).ok_or("list not registered")?;
-            let m = ctx.get_list_matcher_mut(l);
+            // both write accessors, alternating with the value inserted
+            let m = if *val % 2 == 0 { ctx.get_list_matcher_mut(l) } else { ctx.get_list_matcher_mut_from_type(&t.to_engine()).ok_or("get_list_matcher_mut_from_type: no matcher for a registered type")? };
             let sm = (m.as_any_mut() as &mut dyn std::any::Any).downcast_mut::<SetMatcher>().ok_or("matcher for this type is not the one registered for it")?;
             sm.sets.entry(name.clone()).or_default().insert(v);
             Ok(ctx)
@@ -346,6 +347,33 @@ fn hobserve(w: &HWorld, ctx: &ExecutionContext<'static>, st: &HState, problems: 
         if got != Ok(Ok(want)) {
             problems.push(format!("{} evaluates to {got:?}, reference {want}", render(e)));
         }
+    }
+    // the matcher state itself, through both read accessors
+    for (idx, (t, kind)) in w.uni.lists.iter().enumerate() {
+        if *kind != ListKind::Set {
+            continue;
+        }
+        let want = st.sets.get(&idx).cloned().unwrap_or_default();
+        let ty = t.to_engine();
+        let by_ref = w.scheme.get_list(&ty).map(|l| ctx.get_list_matcher(l));
+        let by_type = ctx.get_list_matcher_from_type(&ty);
+        for (how, m) in [("get_list_matcher", by_ref), ("get_list_matcher_from_type", by_type)] {
+            match m.and_then(|m| (m.as_any() as &dyn std::any::Any).downcast_ref::<SetMatcher>()) {
+                None => problems.push(format!("{how}: no matcher of the registered kind for {}", t.short())),
+                Some(sm) => {
+                    let mut got = sm.sets.clone();
+                    got.retain(|_, v| !v.is_empty());
+                    let mut want = want.clone();
+                    want.retain(|_, v| !v.is_empty());
+                    if got != want {
+                        problems.push(format!("{how}: the matcher for {} holds {got:?}, reference {want:?}", t.short()));
+                    }
+                }
+            }
+        }
+    }
+    if ctx.get_list_matcher_from_type(&wirefilter::Type::Bool).is_some() {
+        problems.push("get_list_matcher_from_type(Bool) gives a matcher although no list is registered for Bool".into());
     }
     serde_json::to_string(ctx).unwrap_or_else(|e| format!("<{e}>"))
 }
